@@ -341,8 +341,28 @@ func (d *Driver) dispatchOne(fl, key string, mk func() interface{}, mkOther func
 		if err == nil && rt.equal(mk(), fresh) {
 			e.X2 = 1
 		}
+		// into a destination that already holds other content: the owning runtime's Unmarshal starts from a reset message
+		dst, rdst := mkOther(), mkOther()
+		if err2, rerr2 := csproto.Unmarshal(rb, dst), rt.unmarshal(rb, rdst); (err2 == nil) != (rerr2 == nil) || (err2 == nil && !rt.equal(dst, rdst)) {
+			e.X2 = 0
+			e.Note += " pre-populated destination differs from the runtime's result"
+		}
 	})
 	finish(e, err)
+	// the empty input into a pre-populated destination (and through the gRPC codec): whatever the owning runtime makes of it
+	e = ev("UnmarshalEmpty")
+	guard(&e.St, &e.Note, func() {
+		ok := true
+		for _, data := range [][]byte{nil, {}} {
+			dst, rdst, gdst := mkOther(), mkOther(), mkOther()
+			err1, rerr, gerr := csproto.Unmarshal(data, dst), rt.unmarshal(data, rdst), csproto.GrpcCodec{}.Unmarshal(data, gdst)
+			if (err1 == nil) != (rerr == nil) || (gerr == nil) != (rerr == nil) || (rerr == nil && (!rt.equal(dst, rdst) || !rt.equal(gdst, rdst))) {
+				ok = false
+			}
+		}
+		e.Same = b2i(ok)
+	})
+	finish(e, nil)
 	// Clone: the runtime's own result, independent of the original
 	e = ev("Clone")
 	guard(&e.St, &e.Note, func() {
@@ -568,7 +588,21 @@ func (d *Driver) FamDispatch(perType, G int) {
 	}
 	for _, pc := range plainCases() {
 		d.W.NextGroup()
-		d.dispatchOne(pc.fl, "plain/"+pc.fl+"/"+pc.name, pc.mk, pc.zero, pc.zero, crossFor[pc.fl])
+		pc := pc
+		// "other content" for the pre-populated destination rows: the same type carrying an unknown field
+		other := func() interface{} {
+			m := pc.zero()
+			switch x := m.(type) {
+			case proto.Message:
+				x.ProtoReflect().SetUnknown([]byte{0x98, 0x06, 0x01})
+			default:
+				if f := reflect.ValueOf(m).Elem().FieldByName("XXX_unrecognized"); f.IsValid() && f.CanSet() {
+					f.SetBytes([]byte{0x98, 0x06, 0x01})
+				}
+			}
+			return m
+		}
+		d.dispatchOne(pc.fl, "plain/"+pc.fl+"/"+pc.name, pc.mk, other, pc.zero, crossFor[pc.fl])
 		if pc.grow != nil {
 			// a message without fast-marshal code that was sized / marshaled before and then changed in a nested message: the owning
 			// runtime recomputes every cached size, so must csproto (plain types only: for fast-marshal types this is C09's finding)
